@@ -80,7 +80,8 @@ def ramp_job(c):
         errc = y[centre] - (t[centre] - nc)
         return {"cfg": c, "engine": info["engine"], "bits": P.bits_of(info), "N": N, "span": span, "n": int(good.sum()),
                 "err": float(np.abs(err).max()), "mean": float(err.mean()), "at": float(t[good][i]), "out": len(y),
-                "errc": float(np.abs(errc).max()), "wc": wc + span, "plan": P.plan_strs(info), "sig": P.plan_sig(info)}
+                "errc": float(np.abs(errc).max()), "wc": wc + span, "plan": P.plan_strs(info), "sig": P.plan_sig(info),
+                "hiprec": any(s.get("hiprec") == 1 for s in info["stages"]), "irrational": P.impl_period(info) is None, "io_ratio": ir / orr}
     except Exception as e:      # noqa
         return {"cfg": c, "error": repr(e)[-500:]}
 
@@ -89,7 +90,11 @@ def ramp_tolerance(r):
     bits = r["bits"] or 16.0
     # images of a ramp of height N at the configured rejection + rounding of numbers of size N in the engine's arithmetic
     u = 2.0 ** (1 - bits) + 8 * eng_eps(r["engine"])
-    return r["N"] / 2.0 * u, r["wc"] * u + 1e-12          # whole stream (|x| <= N/2), window about the zero crossing (|x| <= wc)
+    K = r["out"]
+    clock = K * r["io_ratio"] * 2.0 ** -52              # io_ratio is a rounded double
+    if r["irrational"]:
+        clock += K * max(1.0, r["io_ratio"]) * (2.0 ** -95 if r["hiprec"] else 2.0 ** -32)      # the property's own bound for the clock
+    return r["N"] / 2.0 * u + clock, r["wc"] * u + clock + 1e-12     # whole stream (|x| <= N/2), window about the zero crossing (|x| <= wc)
 
 
 # ------------------------------------------------------------------ impulse
